@@ -20,7 +20,9 @@ func (s *SimpleLabelFilterPlanner) Process(ctx *shared.PlannerContext) (sql.ISel
 		return nil, err
 	}
 
-	id := fmt.Sprintf("subsel_%d", ctx.Id())
+	// own name space: this statement is cached with the fingerprint selection and reused by later executions,
+	// whose counters start again
+	id := fmt.Sprintf("fp_subsel_%d", ctx.Id())
 	withMain := sql.NewWith(main, id)
 	filterPlanner := &LabelFilterPlanner{
 		Expr: s.Expr,
